@@ -7,6 +7,7 @@ import (
 	"math/big"
 	"math/bits"
 
+	"gitlab.com/aquachain/aquachain/common/math"
 	vs "gitlab.com/aquachain/aquachain/internal/verifsym"
 )
 
@@ -48,6 +49,26 @@ func VerifC07_MemoryGasCost() {
 	vs.Assert(fee == total-(curWords*3+curWords*curWords/512), "fee equals quadratic formula")
 	vs.Assert(mem.lastGasCost == total, "lastGasCost updated to the new total")
 	vs.Observe("fee", fee)
+}
+
+// VerifC07_MemSizeRound: the rounding Interpreter.Run applies to the window an
+// instruction declares (interpreter.go: SafeMul(toWordSize(memSize), 32)) either
+// refuses the instruction or yields a memory size that covers the whole window -
+// for every 64-bit window end, in particular the last 31 values below 2^64 where
+// size+31 wraps.  An instruction that runs on memory smaller than its window
+// indexes out of range (Memory.Set / GetPtr panic).
+func VerifC07_MemSizeRound() {
+	memSize := vs.U64("memSize")
+	words := toWordSize(memSize)
+	memorySize, overflow := math.SafeMul(words, 32)
+	if overflow {
+		vs.Reach("refused")
+		return
+	}
+	vs.Reach("sized")
+	vs.Assert(memorySize >= memSize, "memory sized for an instruction covers the window the instruction declares")
+	vs.Assert(memorySize%32 == 0 && memorySize-memSize < 32, "memory size is the window end rounded up to the next multiple of 32")
+	vs.Observe("memorySize", memorySize)
 }
 
 // VerifC07_GetData: getData never panics and returns exactly `size` bytes:
